@@ -302,6 +302,40 @@ template<typename T, bool OW> void enumerate(bool tracked, int cap, int depth, S
     }
 }
 
+// Large capacities: whatever the implementation does differently above some size (inline storage, another growth policy, index arithmetic that only wraps when the
+// capacity is large) is on both sides of it here.  States are built directly - capacity c, head moved to h, s elements - and every operation, then every second
+// operation, is applied to each, with all oracles on.
+template<typename T, bool OW> void wide(bool tracked, const std::vector<int> &caps, Stats &st) {
+    for (int cap : caps) {
+        Sys<T, OW> sys; sys.cfg = Config{OW, cap, 0, tracked, std::is_same_v<T, Boxed> ? TY_BOXED : tracked ? TY_TRACKED : TY_INT};
+        std::set<int> heads{0, 1, cap / 2, cap - 1}, sizes{0, 1, cap / 2, cap - 1, cap};
+        for (int hd : heads) for (int sz : sizes) {
+            if (deadline_passed()) { shm->exhaustive = 0; return; }
+            std::vector<Op> h;
+            for (int i = 0; i < hd; i++) { h.push_back(Op{PB, 0}); h.push_back(Op{OF, 0}); }
+            for (int i = 0; i < sz; i++) h.push_back(Op{PB, 0});
+            std::vector<Op> alphabet;
+            for (int k : {PB, PF, EB, EF, OB, OF, AB, AF, XB, XF, CC, MV, SA}) alphabet.push_back(Op{k, 0});
+            std::set<int> targets{1, sz - 1, sz, sz + 1, cap - 1, cap + 1, 2 * cap};
+            for (int n : targets) if (n >= 1) alphabet.push_back(Op{RS, n});
+            alphabet.push_back(Op{CA, 2}); alphabet.push_back(Op{MA, 2});
+            Model base; mark(hist_str(sys.cfg, h)); sys.step(h, nullptr, base); st.evals++; st.states++;
+            for (auto &o : alphabet) {
+                if (!precondition(base, OW, o)) continue;
+                mark(hist_str(sys.cfg, h, &o));
+                Model after; sys.step(h, &o, after);
+                st.transitions++; st.evals++; st.nontrivial++;
+                auto h2 = h; h2.push_back(o);
+                for (auto &o2 : alphabet) {
+                    if (!thorough() && o2.kind != PB && o2.kind != OF && o2.kind != OB && o2.kind != PF && o2.kind != RS) continue;
+                    if (!precondition(after, OW, o2)) continue;
+                    mark(hist_str(sys.cfg, h2, &o2)); Model m3; sys.step(h2, &o2, m3); st.transitions++; st.evals++; st.nontrivial++;
+                }
+            }
+        }
+    }
+}
+
 // comparison reports what a bounded deque reports: element-wise ==, whatever the bytes look like (negative zero equals zero, a NaN equals nothing, an element type may ignore a field)
 struct Keyed { int key; int note; bool operator==(const Keyed &o) const { return key == o.key; } };
 template<bool OWA, bool OWB> void equality_semantics() {
@@ -338,6 +372,13 @@ void explore() {
         bfs<Boxed, false>(false, std::min(maxcap, 5), seen2, st); bfs<Boxed, true>(false, std::min(maxcap, 5), seen2, st);
     }
     uint64_t bfs_states = st.states, bfs_trans = st.transitions;
+    {
+        std::vector<int> caps; for (int c = maxcap + 1; c <= (thorough() ? 70 : 66); c++) if (thorough() || c <= 10 || (c >= 15 && c <= 18) || (c >= 31 && c <= 34) || c >= 63) caps.push_back(c);
+        if (tracked) { wide<Tracked, false>(true, caps, st); wide<Tracked, true>(true, caps, st); }
+        else { wide<int, false>(false, caps, st); wide<int, true>(false, caps, st); }
+        sx::detail(fmt("large capacities (%d..%d%s): every state (capacity, head at 0 / 1 / middle / last slot, size 0 / 1 / half / capacity-1 / capacity) with every operation and every second operation%s; resize targets 1, size-1, size, size+1, capacity-1, capacity+1, 2 x capacity",
+                       caps.front(), caps.back(), thorough() ? "" : ": 7..10, 15..18, 31..34, 63..66", thorough() ? "" : " (second: push, pop, resize)"));
+    }
     int depth = thorough() ? 6 : 4;
     for (int cap : {2, 3}) {
         if (tracked) { enumerate<Tracked, false>(true, cap, depth, st); enumerate<Tracked, true>(true, cap, depth, st); }
